@@ -2,6 +2,7 @@ import Mathlib.Tactic.Ring
 import Mathlib.Tactic.FieldSimp
 import Mathlib.Tactic.Linarith
 import Synphot.Core.Binning
+import Synphot.Lemmas.Wave
 
 set_option linter.unusedSectionVars false
 set_option linter.unusedSimpArgs false
@@ -36,5 +37,219 @@ theorem binCenters_binEdges (c e : List K) (h : binEdges c = .ok e) : binCenters
     have := centersLoop_mids a (2 * (a :: b :: t).getLastD a - ((b + a) * (1 / 2) :: mids (b :: t)).getLastD ((b + a) * (1 / 2))) (b :: t)
     simp only [mids, List.cons_append] at this
     rw [this]
+
+/-! ### explicit form of the edge list; monotonicity, widths (C18) -/
+
+/-- explicit recursive form of the edge list behind the first edge: `prev` is the centre to the left -/
+def edgesAux (prev : K) : List K → List K
+  | [] => []
+  | [x] => [(x + prev) * (1/2), 2 * x - (x + prev) * (1/2)]
+  | x :: y :: t => (x + prev) * (1/2) :: edgesAux x (y :: t)
+
+theorem mids_tail_eq_edgesAux (a b : K) (t : List K) :
+    mids (a :: b :: t) ++ [2 * (b :: t).getLastD a - (mids (a :: b :: t)).getLastD ((b + a) * (1/2))]
+      = edgesAux a (b :: t) := by
+  induction t generalizing a b with
+  | nil => simp [mids, edgesAux]
+  | cons c t ih =>
+    have := ih b c
+    simp only [mids, List.getLastD_cons, List.cons_append, edgesAux] at this ⊢
+    rw [← this]
+
+theorem binEdges_cons_cons (a b : K) (t : List K) :
+    binEdges (a :: b :: t) = .ok ((2 * a - (b + a) * (1/2)) :: edgesAux a (b :: t)) := by
+  have := mids_tail_eq_edgesAux a b t
+  simp only [binEdges, mids, List.getLastD_cons, List.cons_append] at this ⊢
+  rw [← this]
+
+theorem binEdges_ok_iff (c : List K) : (∃ e, binEdges c = .ok e) ↔ 2 ≤ c.length := by
+  rcases c with _ | ⟨a, _ | ⟨b, t⟩⟩
+  · simp [binEdges, mids]
+  · simp [binEdges, mids]
+  · simp [binEdges_cons_cons]
+
+theorem binEdges_short (c : List K) (h : c.length < 2) : binEdges c = .error .synphotError := by
+  rcases c with _ | ⟨a, _ | ⟨b, t⟩⟩
+  · simp [binEdges, mids]
+  · simp [binEdges, mids]
+  · simp only [List.length_cons] at h; omega
+
+theorem edgesAux_length (p x : K) (t : List K) : (edgesAux p (x :: t)).length = t.length + 2 := by
+  induction t generalizing p x with
+  | nil => simp [edgesAux]
+  | cons y t ih => simp [edgesAux, ih]
+
+
+theorem edgesAux_head (p x : K) (t : List K) : ∃ r, edgesAux p (x :: t) = (x + p) * (1/2) :: r := by
+  cases t <;> simp [edgesAux]
+
+theorem edgesAux_getElem? (l : List K) : ∀ (p : K) (j : Nat) (x y : K), l[j]? = some x → (p :: l)[j]? = some y →
+    (edgesAux p l)[j]? = some ((x + y) * (1/2)) := by
+  induction l with
+  | nil => intro p j x y h; simp at h
+  | cons x0 t ih =>
+    intro p j x y hx hy
+    cases t with
+    | nil =>
+      cases j with
+      | zero => simp at hx hy; subst hx; subst hy; simp [edgesAux]
+      | succ j => simp at hx
+    | cons y0 t =>
+      cases j with
+      | zero => simp at hx hy; subst hx; subst hy; simp [edgesAux]
+      | succ j =>
+        simp only [List.getElem?_cons_succ] at hx hy
+        simp only [edgesAux, List.getElem?_cons_succ]
+        exact ih x0 j x y hx hy
+
+theorem edgesAux_last (l : List K) : ∀ (p xl m : K), l.getLast? = some xl →
+    (edgesAux p l)[l.length - 1]? = some m → (edgesAux p l)[l.length]? = some (2 * xl - m) := by
+  induction l with
+  | nil => intro p xl m h; simp at h
+  | cons x0 t ih =>
+    intro p xl m hx hm
+    cases t with
+    | nil =>
+      simp [edgesAux] at hx hm ⊢
+      subst hx; subst hm; rfl
+    | cons y0 t =>
+      rw [List.getLast?_cons_cons] at hx
+      simp only [edgesAux, List.length_cons, Nat.add_sub_cancel, List.getElem?_cons_succ] at hm ⊢
+      exact ih x0 xl m hx (by simpa using hm)
+
+theorem edgesAux_strictAsc (t : List K) : ∀ (p x : K), StrictAsc (p :: x :: t) → StrictAsc (edgesAux p (x :: t)) := by
+  induction t with
+  | nil =>
+    intro p x h
+    simp only [StrictAsc, and_true] at h
+    simp only [edgesAux, StrictAsc, and_true]
+    linarith
+  | cons y t ih =>
+    intro p x h
+    obtain ⟨hpx, hxy⟩ := h
+    have h2 := ih x y hxy
+    obtain ⟨r, hr⟩ := edgesAux_head x y t
+    simp only [edgesAux]
+    rw [hr] at h2 ⊢
+    exact ⟨by have := hxy.1; linarith, h2⟩
+
+theorem edgesAux_strictDesc (t : List K) : ∀ (p x : K), StrictDesc (p :: x :: t) → StrictDesc (edgesAux p (x :: t)) := by
+  induction t with
+  | nil =>
+    intro p x h
+    simp only [StrictDesc, and_true] at h
+    simp only [edgesAux, StrictDesc, and_true]
+    linarith
+  | cons y t ih =>
+    intro p x h
+    obtain ⟨hpx, hxy⟩ := h
+    have h2 := ih x y hxy
+    obtain ⟨r, hr⟩ := edgesAux_head x y t
+    simp only [edgesAux]
+    rw [hr] at h2 ⊢
+    exact ⟨by have := hxy.1; linarith, h2⟩
+
+theorem binEdges_strictAsc (c e : List K) (hc : StrictAsc c) (h : binEdges c = .ok e) : StrictAsc e := by
+  rcases c with _ | ⟨a, _ | ⟨b, t⟩⟩
+  · simp [binEdges, mids] at h
+  · simp [binEdges, mids] at h
+  · rw [binEdges_cons_cons] at h
+    injection h with h
+    subst h
+    obtain ⟨r, hr⟩ := edgesAux_head a b t
+    have h2 := edgesAux_strictAsc t a b hc
+    rw [hr] at h2 ⊢
+    exact ⟨by have := hc.1; linarith, h2⟩
+
+theorem binEdges_strictDesc (c e : List K) (hc : StrictDesc c) (h : binEdges c = .ok e) : StrictDesc e := by
+  rcases c with _ | ⟨a, _ | ⟨b, t⟩⟩
+  · simp [binEdges, mids] at h
+  · simp [binEdges, mids] at h
+  · rw [binEdges_cons_cons] at h
+    injection h with h
+    subst h
+    obtain ⟨r, hr⟩ := edgesAux_head a b t
+    have h2 := edgesAux_strictDesc t a b hc
+    rw [hr] at h2 ⊢
+    exact ⟨by have := hc.1; linarith, h2⟩
+
+theorem absDiffs_length (l : List K) : (absDiffs l).length = l.length - 1 := by
+  induction l with
+  | nil => simp [absDiffs]
+  | cons a t ih =>
+    cases t with
+    | nil => simp [absDiffs]
+    | cons b t => simp [absDiffs, ih]
+
+theorem centersLoop_length (l : List K) : ∀ p : K, (centersLoop p l).length = l.length - 1 := by
+  induction l with
+  | nil => intro p; simp [centersLoop]
+  | cons a t ih =>
+    intro p
+    cases t with
+    | nil => simp [centersLoop]
+    | cons b t => simp [centersLoop, ih]
+
+theorem absDiffs_pos_of_strictAsc (l : List K) (h : StrictAsc l) : ∀ w ∈ absDiffs l, 0 < w := by
+  induction l with
+  | nil => simp [absDiffs]
+  | cons a t ih =>
+    cases t with
+    | nil => simp [absDiffs]
+    | cons b t =>
+      intro w hw
+      simp only [absDiffs, List.mem_cons] at hw
+      rcases hw with rfl | hw
+      · exact abs_pos.mpr (by have := h.1; intro h0; linarith)
+      · exact ih h.2 w hw
+
+theorem absDiffs_pos_of_strictDesc (l : List K) (h : StrictDesc l) : ∀ w ∈ absDiffs l, 0 < w := by
+  induction l with
+  | nil => simp [absDiffs]
+  | cons a t ih =>
+    cases t with
+    | nil => simp [absDiffs]
+    | cons b t =>
+      intro w hw
+      simp only [absDiffs, List.mem_cons] at hw
+      rcases hw with rfl | hw
+      · exact abs_pos.mpr (by have := h.1; intro h0; linarith)
+      · exact ih h.2 w hw
+
+theorem absDiffs_sum_of_strictAsc (t : List K) : ∀ a : K, StrictAsc (a :: t) →
+    (absDiffs (a :: t)).sum = t.getLastD a - a := by
+  induction t with
+  | nil => intro a _; simp [absDiffs]
+  | cons b t ih =>
+    intro a h
+    simp only [absDiffs, List.sum_cons, List.getLastD_cons, ih b h.2]
+    rw [abs_of_pos (by have := h.1; linarith)]
+    ring
+
+theorem absDiffs_sum_of_strictDesc (t : List K) : ∀ a : K, StrictDesc (a :: t) →
+    (absDiffs (a :: t)).sum = a - t.getLastD a := by
+  induction t with
+  | nil => intro a _; simp [absDiffs]
+  | cons b t ih =>
+    intro a h
+    simp only [absDiffs, List.sum_cons, List.getLastD_cons, ih b h.2]
+    rw [abs_of_neg (by have := h.1; linarith)]
+    ring
+
+theorem strictAsc_head_le_last (t : List K) : ∀ a : K, StrictAsc (a :: t) → a ≤ t.getLastD a := by
+  induction t with
+  | nil => intro a _; simp
+  | cons b t ih =>
+    intro a h
+    rw [List.getLastD_cons]
+    exact le_trans (le_of_lt h.1) (ih b h.2)
+
+theorem strictDesc_last_le_head (t : List K) : ∀ a : K, StrictDesc (a :: t) → t.getLastD a ≤ a := by
+  induction t with
+  | nil => intro a _; simp
+  | cons b t ih =>
+    intro a h
+    rw [List.getLastD_cons]
+    exact le_trans (ih b h.2) (le_of_lt h.1)
 
 end Synphot
